@@ -256,6 +256,12 @@ func TestConversion(t *testing.T) {
 				for i := range f.Filler {
 					f.Filler[i] = byte(n*31 + i*17)
 				}
+				// the record's informative fields (nominal / normal / sensor minimum
+				// and maximum, in raw units) take all kinds of values, narrow ranges
+				// included; the conversion of a reading does not depend on them
+				f.SensorMin, f.SensorMax = byte(n*13), byte(n*13+1+n%97)
+				f.Nominal, f.NormalMin, f.NormalMax = byte(n*5), byte(n*3), byte(n*3+n%41)
+				f.NominalSpec, f.NormalMinSpec, f.NormalMaxSpec = n%2 == 0, n%3 == 0, n%5 == 0
 				var rec ipmi.FullSensorRecord
 				if err := rec.DecodeFromBytes(f.Body(), gopacket.NilDecodeFeedback); err != nil {
 					fail(t, f, "record does not decode: "+err.Error())
